@@ -905,6 +905,11 @@ class Engine:
                 raise Unsupported(f"`is` on {a!r}, {b!r}")
             return e if isinstance(op, ast.Is) else z3.Not(e)
         if isinstance(op, (ast.Lt, ast.LtE, ast.Gt, ast.GtE)):
+            if st.spec and (isinstance(a, VRef) or isinstance(b, VRef)):
+                x = a.t if isinstance(a, VRef) else _as_int(a)
+                y = b.t if isinstance(b, VRef) else _as_int(b)
+                return {ast.Lt: x < y, ast.LtE: x <= y, ast.Gt: x > y,
+                        ast.GtE: x >= y}[type(op)]
             if _is_int_like(a) and _is_int_like(b):
                 x, y = _as_int(a), _as_int(b)
                 return {ast.Lt: x < y, ast.LtE: x <= y, ast.Gt: x > y,
@@ -1777,6 +1782,7 @@ class Engine:
         if kind == "normal":
             exits["normal"] += 1
             st.ghost["result"] = result
+            st.locals["result"] = result
             for k, cl in enumerate(fc.ensures):
                 self.oblige(st, "post", line, self.spec_bool(st, cl),
                             cl.props, label=str(k))
@@ -1806,16 +1812,26 @@ class Engine:
                 self.frame_obligations(st, fc, ex.line, exceptional=True)
 
     def frame_obligations(self, st: State, fc, line, exceptional=False):
-        """Every heap component not named in `modifies` is unchanged."""
+        """Every heap component not named in `modifies` is unchanged; for
+        `Cls.f@e1|e2` only the components at references e1, e2 (evaluated in
+        the entry state) may change.  Objects allocated by the call itself
+        are not part of the frame."""
         if fc.modifies == ["*"]:
             return
-        mods = set()
+        mods = {}
         for m in fc.modifies:
-            mods.add(m.split("@")[0])
+            if m.startswith("ghost:"):
+                continue
+            if "@" in m:
+                k, e = m.split("@", 1)
+                if mods.get(k, []) is not None:
+                    mods.setdefault(k, []).extend(e.split("|"))
+            else:
+                mods[m] = None
         old = st.old["heap"]
-        for key, arr in st.heap.items():
+        for key, arr in list(st.heap.items()):
             base = key.split("#")[0]
-            if base in mods:
+            if base in mods and mods[base] is None:
                 continue
             if key in old:
                 if arr is old[key] or z3.eq(arr, old[key]):
@@ -1825,9 +1841,20 @@ class Engine:
                 o = z3.Const(f"H0_{key}", arr.sort())
                 if z3.eq(arr, o):
                     continue
-            # objects allocated by this call are not part of the frame
             r = z3.Const("r!fr", IntS)
+            guard = [r >= 0, r < st.old["next_ref"]]
+            if base in mods:
+                cur = (st.locals, st.heap, st.ghost)
+                st.locals = dict(st.old["locals"])
+                st.heap = dict(old)
+                st.spec += 1
+                try:
+                    for e in mods[base]:
+                        v = self.eval(st, self.spec_parse(e))
+                        guard.append(r != v.t)
+                finally:
+                    st.spec -= 1
+                    st.locals, st.heap, st.ghost = cur
             self.oblige(st, f"frame({key})", line,
-                        z3.ForAll([r], z3.Implies(
-                            z3.And(r >= 0, r < st.old["next_ref"]),
-                            arr[r] == o[r])), None)
+                        z3.ForAll([r], z3.Implies(z3.And(guard),
+                                                  arr[r] == o[r])), None)
